@@ -250,6 +250,8 @@ def finish(prop, tier, conds, results, seed, hseed, t_start, verbose):
     rdir = os.path.join(VERIF, "build", "replays", prop)
     os.makedirs(rdir, exist_ok=True)
     seen = set()
+    replayed_per_cond = {}
+    not_replayed = 0
     for f in fails:
         key = hashlib.sha1(json.dumps([f["cond"], f["raw"]], sort_keys=True).encode()).hexdigest()[:12]
         if key in seen:
@@ -257,6 +259,12 @@ def finish(prop, tier, conds, results, seed, hseed, t_start, verbose):
         seen.add(key)
         if f.get("harness_error"):
             continue
+        # every shard stops at its first counterexample; with a broken library that can be one per shard. Three
+        # per condition are replayed and reported, the others are only counted.
+        if replayed_per_cond.get(f["cond"], 0) >= 3:
+            not_replayed += 1
+            continue
+        replayed_per_cond[f["cond"]] = replayed_per_cond.get(f["cond"], 0) + 1
         path = os.path.join(rdir, "%s_%s.json" % (f["cond"], key))
         rec = {"property": prop, "cond": f["cond"], "raw": f["raw"], "failures": f["failures"],
                "input": f.get("input"), "hashseed": f["seed"], "tier": tier,
@@ -398,6 +406,8 @@ def finish(prop, tier, conds, results, seed, hseed, t_start, verbose):
     print("[vf] %s %s: %s, %d paths, %d judged, %d distinct non-trivial, z3 %d queries %.1fs, wall %.0fs" % (
         prop, tier, "exhaustive within bound" if exhaustive else "NOT exhaustive", paths,
         counts_total["reached"], len(distinct), z3q, z3s, wall), flush=True)
+    if not_replayed and verbose:
+        print("[vf] %d further counterexamples (other shards) were not replayed" % not_replayed)
     if violations:
         for path, f in violations:
             print("[vf] counterexample %s raw=%s: %s" % (f["cond"], json.dumps(f["raw"]),
